@@ -1,5 +1,4 @@
 import JadeModel.Proofs.SystemLive2
-import JadeModel.Proofs.SystemLive3Defs
 import JadeModel.Proofs.SystemLiveStep4S
 import JadeModel.Proofs.SystemLiveStep4A
 import JadeModel.Proofs.SystemLiveStep4B
